@@ -10,6 +10,26 @@ CHECKS = {
    technique="TLA+ spec (MdLine/MdDoc/Render code-shaped vs Forest declarative) model-checked by TLC; every TLC state replayed into the real OutputFromMarkdown; recorded random calls validated by TLC (TraceDoc)",
    text="TLC exhausts every well-formed document up to the line bound (= every ordered forest with every pattern of repeated sibling names, incl. composite names) and checks that the code-shaped renderer (index equality, bottom-up parent walk) equals the declarative drawing rule; each of those states is replayed byte-exactly into the real library under several concretisations of names and branch strings, through both simple-mode printers; random documents far beyond the bound (60 nodes, depth 8, all spellings) are run on the real code and the recorded calls are validated against the specification by TLC.",
    note="Small-scope exhaustiveness + sampled large documents; concretisation pools are finite; the TLA+ transcription is bound to the code only through replay/trace validation (that binding is what is trusted)."),
+ 'C02': dict(level=MC, ref='DESIGN.md 7/C02, 3.3, 5',
+   technique="TLA+ spec: declarative reading of documents (Forest.Analyze: verdict accept/reject/grey + first offending line) vs code-shaped generator (MdDoc), model-checked by TLC over every line sequence from a pool with all malformation classes; every state replayed into the real library in 5 output modes; random malformed documents validated by TLC (TraceDoc)",
+   text="TLC exhausts every sequence of lines (quick 4, thorough 5) over a 16-line pool holding well-formed items and one representative of each malformation class, and checks RejectsMalformed (error at the first offending line), AcceptsWellFormed and NoSilentLoss on the code-shaped model; each state is replayed into text (both generators), JSON, YAML and walk: reject => non-nil error (format errors must quote the first offending row), accept => nil and exactly the declarative forest, grey zone => either, but nothing readable may be lost; random 40-node documents with 0-2 injected malformations are recorded and validated by TLC.",
+   note="Three-valued oracle: documents the statement does not settle (DESIGN.md section 5) carry no accept/reject requirement. Massive mode is handed to C10's machinery."),
+ 'C04': dict(level=MC, ref='DESIGN.md 7/C04, 3.4',
+   technique="TLA+ spec (ForestOf = positional copy of the node store vs Trie) model-checked by TLC; every forest replayed into the real encoders (From-Markdown both generators, From-Root) and decoded with encoding/json, yaml.v3, go-toml/v2 under hostile name concretisations",
+   text="TLC exhausts every forest up to the bound over 4 names (trailing blank, leading '#', list-item look-alike) and checks that the structure handed to the encoders is the declarative forest; each forest is encoded by the real library as JSON, YAML and (single root) TOML through From-Markdown (iterator and slice generators) and From-Root, decoded with the decoders gtree itself links, and compared structurally (names, child order, nesting, null == []), under up to 25 hostile chunk concretisations (quotes, colons, hashes, backslashes, Unicode, control characters, YAML/TOML-special scalars).",
+   note="The specification decides the structure; that a name survives quoting is observed on the listed pools only (third-party encoders are outside a TLA+ model)."),
+ 'C05': dict(level=MC, ref='DESIGN.md 7/C05, 3.4',
+   technique="TLA+ spec (CodeWalk/WalkRootsStop code-shaped vs RuleWalk/StopAt declarative) model-checked by TLC; every state x every stop position replayed into WalkFromMarkdown, WalkFromRoot and WalkIterFromRoot; random walks validated by TLC (TraceDoc)",
+   text="TLC exhausts every forest up to the bound and checks WalkMatchesRule and StopMatchesRule for every stop index; each state is replayed into the three walkers under several branch tuples: the recorded (Name, Branch, Row, Level, Path, HasChild) sequence must equal the specification's, Row must equal the line of the real text output, a callback error at visit k must give exactly k visits and be returned unchanged (==), an iterator break at k exactly k visits.",
+   note="Names are single path elements (the property's premise). The From-Root part is serialised in the harness: concurrent use of the programmatic API is C13's subject."),
+ 'C15': dict(level=MC, ref='DESIGN.md 7/C15, 3.3',
+   technique="TLA+ spec: SpellItem/sigma (notation family) with SpellingInvariance + ForestMatchesTrie model-checked by TLC; every spelled document replayed into the real library in 5 output modes; random spellings over the full product validated by TLC (TraceDoc)",
+   text="TLC exhausts every item sequence up to the bound under 13 members of the notation family (each dimension varied on its own: unit of tab / 1-4 spaces / 2 tabs, bullet per line, heading roots, CRLF, blank and white-space-only lines at any position) and checks that every spelling reads back to the same items and the same forest; each spelled document is replayed byte-exactly through text (both generators), JSON, YAML and walk against the one declarative result, so any two spellings are compared with each other; the random driver samples the full product of the dimensions on 40-node documents.",
+   note="Heading spelling requires names without leading/trailing blanks that do not start with '#' (premise made explicit in the spec). mkdir/verify agreement is covered through the forest (Fs layer) once C06-C08 are built."),
+ 'C17': dict(level=MC, ref='DESIGN.md 7/C17',
+   technique="the same TLC state sets (MC_C01, MC_C02) replayed into two builds of gtree (default, and a worker process compiled with -tags tinywasm); decisions and bytes compared with each other and with the specification",
+   text="The tinywasm files are a second implementation of the actions already specified (MdDoc with Gen=slice, Render, dry-run report); every state of C01's and C02's models (well-formed and malformed documents) is run through both builds in four modes (text, custom branch strings, JSON, dry-run + extension): same accept/reject decision (and the specification's), byte-identical output when accepted, and equality with the specification's rows / dry-run report.",
+   note="The tinywasm variant is exercised as a native process built with the tag (not under a wasm runtime); YAML/TOML are not claimed for it."),
 }
 
 NOT_YET = "check not built yet (framework under construction; see DESIGN.md section 7)"
